@@ -54,6 +54,14 @@ AREAS = {
                 'non-decreasing with ties / increasing / unordered, start index 0-1999, through SortingMultiReaderIterator::new, '
                 'SequentialMultiIterator::new and both new_or_single_it variants; non-trivial = tagged (ties, empty source, unordered source, single, multi)',
     },
+    'flt': {
+        'shrink_sep': ';', 'head_sep': None,
+        'rule': '1-4 (thorough 1-6) abstract filters (kind, enabled, negated, ECU/APID/CTID as literal / regex / flag omitted (auto-detection) / over-long / '
+                'non-compiling, type value via verb_mstp_mtin or mstp, level bounds, payload literal or regex with/without ignore-case, lifecycle list) rendered to '
+                'JSON and (when expressible) to a dlt-viewer DLF file, loaded by the real constructors, serialised and re-loaded; 1-8 (thorough 1-16) messages over a small id '
+                'universe (short and full ids), with/without extended header, all 256 type bytes, lifecycles 0-3, payload texts differing in case (text as '
+                'computed by Rust); regex verdicts observed with the same crates on exactly the pattern/haystack pairs of the case',
+    },
     'dp': {
         'shrink_sep': ';', 'head_sep': None,
         'rule': 'byte streams built from items: well-formed messages (all 32 combinations of the optional header parts, both byte orders, '
@@ -110,6 +118,16 @@ PROPS = {
         'id': 'C09', 'area': 'mrg',
         'theorems': ['Props.C09_perm', 'Props.C09_source_order', 'Props.C09_sorted', 'Props.C09_chain', 'Props.C09_index'],
         'n_quick': 5000, 'n_thorough': 200000,
+    },
+    'C11': {
+        'id': 'C11', 'area': 'flt',
+        'theorems': ['Props.C11_matches', 'Props.C11_noext', 'Props.C11_frontends_agree'],
+        'n_quick': 3000, 'n_thorough': 100000,
+    },
+    'C12': {
+        'id': 'C12', 'area': 'flt',
+        'theorems': ['Props.C12_stream', 'Props.C12_set', 'Props.C12_agree'],
+        'n_quick': 3000, 'n_thorough': 100000,
     },
     'C05': {
         'id': 'C05', 'area': 'lc',
